@@ -11,12 +11,16 @@ _CACHE = {}
 
 
 FEE_LIMIT = 2
+MAX_INVOICES = 1   # harness/src/nodelib.rs MAX_INVOICES
 
 
 def extract(tier, mode="default"):
     """mode "feelimit": the node runs with a fee velocity limit of FEE_LIMIT Withdraw fees per hour, the counted
     fees are part of the state (Node.tla k.feeLimit), and the alphabet is the on-chain part only (Withdraw in
-    all variants, one channel to fund, Restart) - refusals by the velocity limit and what they leave behind."""
+    all variants, one channel to fund, Restart) - refusals by the velocity limit and what they leave behind.
+    mode "maxinv": the table of approved invoices holds MAX_INVOICES entries (Node.tla k.maxInvoices), the payment
+    velocity control's counted amounts are part of the observed state, alphabet = invoice / keysend approvals,
+    heartbeat, restart - refusals because the table is full and what they leave behind."""
     if ("ex", mode) in _CACHE:
         return _CACHE[("ex", mode)]
     binpath = vlib.build("node")
@@ -27,6 +31,9 @@ def extract(tier, mode="default"):
     if mode == "feelimit":
         keep = [r for r in json.load(open(alpha))
                 if r["op"] in ("Withdraw", "Restart") or (r["op"] in ("NewChannel", "Setup") and r["d"] == 1)]
+        json.dump(keep, open(alpha, "w"))
+    if mode == "maxinv":
+        keep = [r for r in json.load(open(alpha)) if r["op"] in ("AddInvoice", "AddKeysend", "Restart", "Heartbeat")]
         json.dump(keep, open(alpha, "w"))
     t0 = time.time()
     stats = vlib.run_bin(binpath, ["explore", "--alphabet", alpha, "--out", os.path.join(d, "ex"), "--threads", 16,
@@ -46,6 +53,7 @@ def extract(tier, mode="default"):
     report = os.path.join(d, "report.json")
     r = vlib.tlc("ImplNode", cfg, env={"ND_NODES": nodes, "ND_ALPHABET": alpha, "ND_REPORT": report,
                                        "ND_FEE_LIMIT": FEE_LIMIT if mode == "feelimit" else 0,
+                                       "ND_MAX_INVOICES": MAX_INVOICES if mode == "maxinv" else 0,
                                        "ND_COUNTS_BEFORE_SIGN": "true" if SWITCHES.get("withdrawCountsBeforeSign", True) else "false",
                                        "ND_ATOMIC_ALLOWLIST": "true" if SWITCHES.get("atomicAllowlist") else "false"},
                  workers=8, timeout=1800, name="impl-node")
@@ -60,7 +68,7 @@ def extract(tier, mode="default"):
 def frame_component(pid, tier):
     viol, cov, ev, nt, samples = [], {}, 0, 0, []
     seen = set()
-    for mode in ("default", "feelimit"):
+    for mode in ("default", "feelimit", "maxinv"):
         v, c, e, n, s = _frame_one(pid, tier, mode)
         for x in v:
             if x["key"] not in seen:
